@@ -23,6 +23,8 @@ Spec == Init /\ [][Next]_vars
 CompleteP == phase = "p" /\ Len(k) > 0 /\ SumTo(k, Len(k)) = D
 Grid == 0..(2 * D - 1)
 DataValid == CompleteP => \A j \in Grid : Data(k, j) \in 0..(Len(k) - 1) /\ k[Data(k, j) + 1] > 0
+\* sub-normalised vectors (every proper prefix of the construction): still only outcomes of non-zero probability
+DataValidDeficit == (phase = "p" /\ Len(k) > 0 /\ SumTo(k, Len(k)) > 0) => \A j \in Grid : k[Data(k, j) + 1] > 0
 DataMonotone == CompleteP => \A j \in Grid : j + 1 \in Grid => Data(k, j) <= Data(k, j + 1)
 \* exactly 2*k[i] grid points map to outcome i: sampling follows the requested distribution
 DataDistribution == CompleteP => \A i \in 1..Len(k) : Cardinality({j \in Grid : Data(k, j) = i - 1}) = 2 * k[i]
@@ -41,6 +43,8 @@ BadNumSums == {<<2, 1>>, <<1, 1>>, <<MaxLen + 1>>, <<1, MaxLen + 2>>}
 
 EmitCase ==
     IF ~Emit THEN TRUE
+    ELSE IF phase = "p" /\ Len(k) > 0 /\ SumTo(k, Len(k)) \in {D - 1} /\ ~CompleteP
+         THEN PrintT(ToJson([kind |-> "pd", k |-> k, D |-> D, data |-> [j \in 1..(2 * D) |-> Data(k, j - 1)]]))
     ELSE IF CompleteP THEN PrintT(ToJson([kind |-> "p", k |-> k, D |-> D, data |-> [j \in 1..(2 * D) |-> Data(k, j - 1)]]))
     ELSE IF phase = "d" THEN PrintT(ToJson([kind |-> "d", m |-> M, data |-> data,
              good |-> {[ns |-> ns, e |-> EmpiCounts(M, data, ns)] : ns \in IncSeqs(1, Len(data))},
